@@ -139,7 +139,7 @@ def handle (toks : List String) : String :=
     -- the property itself: a failing call must surface as an error; a short read must not
     -- change the result; `Interrupted` may be retried or reported (not predicted)
     if mode = "E" then "res=err"
-    else if mode = "S" then s!"res=ok batches={n}"
+    else if mode = "S" ∨ mode = "A" then s!"res=ok batches={n}"
     else if mode = "I" then "SKIP"
     else "bad-op"
   | ["jsont", _spec, batch, k, hex] =>
